@@ -1,4 +1,5 @@
 import PromqlVerif.Proto
+import PromqlVerif.Eng
 open PromqlVerif
 
 structure DState where
@@ -32,7 +33,11 @@ def evalView (s : DState) (view : String) : String :=
         | none => "bad-op"
       | "model" =>
         match mkCtx s engineQuirks with
-        | some (c, w) => showResult (runQuery c w e)
+        | some (c, w) => showResult (engRun c w e)
+        | none => "bad-op"
+      | "ties" =>
+        match mkCtx s Quirks.none with
+        | some (c, w) => if hasTie c w.grid e then "1" else "0"
         | none => "bad-op"
       | _ => "bad-op"
 
